@@ -11,7 +11,7 @@ from vf import hist
 
 
 def run_shape(start, mode, direction, dp, desc, ratio=None, res=None,
-              pre=None, labels=None, rehearse=None):
+              pre=None, labels=None, rehearse=None, hooked=False):
     """Execute one tracer request on a fresh builder.
 
     start: (x, y, z) set exactly with set_axis (G92) or None (unknown position)
@@ -19,6 +19,9 @@ def run_shape(start, mode, direction, dp, desc, ratio=None, res=None,
     """
     s = Session(dp=dp)
     g = s.g
+    if hooked:
+        # a registered (pass-through) move hook must not change what is traced
+        g.add_hook(lambda origin, target, params, state: params)
     if start is not None:
         g.set_axis(x=start[0], y=start[1], z=start[2])
     g.set_distance_mode(mode)
